@@ -2,6 +2,7 @@
 fn sqrt(&self) -> $half
 /*@[u64] #[hoist(Self = u64, Name = sqrt_u64)] @*/
 /*@[u128] #[hoist(Self = u128, Name = sqrt_u128)] @*/
+/*@[u32] #[hoist(Self = u32, Name = sqrt_u32)] @*/
 /*@
     ensures // C12: the square root truncated toward zero
         (ret as int) * (ret as int) <= *self as int, (*self as int) < (ret as int + 1) * (ret as int + 1),
@@ -16,6 +17,9 @@ fn sqrt(&self) -> $half
     /*@[u64] let ghost z = br_lz64(*self) as nat; let ghost w = 64nat;
         proof { lemma_br_lz64(*self); lemma_br_pow2_64(); lemma_br_sqrt_norm(x, z, (br_lz64(*self) & !1u32) as nat, w);
                 lemma_br_shl64(*self, br_lz64(*self) & !1u32); } @*/
+    /*@[u32] let ghost z = br_lz32(*self) as nat; let ghost w = 32nat;
+        proof { lemma_br_lz32(*self); vstd::arithmetic::power2::lemma2_to64(); lemma_br_sqrt_norm(x, z, (br_lz32(*self) & !1u32) as nat, w);
+                lemma_br_shl32(*self, br_lz32(*self) & !1u32); } @*/
     /*@[u128] let ghost z = br_lz128(*self) as nat; let ghost w = 128nat;
         proof { lemma_br_lz128(*self); lemma_br_pow2_64(); lemma_br_sqrt_norm(x, z, (br_lz128(*self) & !1u32) as nat, w);
                 lemma_br_shl128(*self, br_lz128(*self) & !1u32); } @*/
@@ -28,5 +32,6 @@ fn sqrt(&self) -> $half
         } @*/
     /*@[u64] proof { lemma_br_shr32(root, shift / 2); } @*/
     /*@[u128] proof { lemma_br_shr64(root, shift / 2); } @*/
+        /*@[u32] proof { lemma_br_shr16(root, shift / 2); } @*/
     root >> (shift / 2)
 }
